@@ -371,28 +371,29 @@ impl FixtureDatabase {
             let is_last = i == parts.len() - 1;
 
             if is_last {
-                // Last part - could be a module file or a package
-                let py_file = current_path.join(format!("{}.py", part));
-                if py_file.exists() {
-                    return Some(py_file);
-                }
-
-                // Also check if the file is in the cache (for test files that don't exist on disk)
-                let canonical_py_file = self.get_canonical_path(py_file.clone());
-                if self.file_cache.contains_key(&canonical_py_file) {
-                    return Some(py_file);
-                }
-
-                // Check if it's a package with __init__.py
+                // Last part - could be a package or a module file. Python's import system looks
+                // for the package (`<name>/__init__.py`) before the module file (`<name>.py`).
                 let package_init = current_path.join(part).join("__init__.py");
                 if package_init.exists() {
                     return Some(package_init);
                 }
 
                 // Also check if the package __init__.py is in the cache
+                // (for test files that don't exist on disk)
                 let canonical_package_init = self.get_canonical_path(package_init.clone());
                 if self.file_cache.contains_key(&canonical_package_init) {
                     return Some(package_init);
+                }
+
+                let py_file = current_path.join(format!("{}.py", part));
+                if py_file.exists() {
+                    return Some(py_file);
+                }
+
+                // Also check if the file is in the cache
+                let canonical_py_file = self.get_canonical_path(py_file.clone());
+                if self.file_cache.contains_key(&canonical_py_file) {
+                    return Some(py_file);
                 }
             } else {
                 // Not the last part - must be a directory
